@@ -33,6 +33,7 @@ using refisa::MEM_WORDS;
 static uint64_t g_cases = 0, g_steps = 0, g_defined = 0, g_undefined = 0, g_outOfDomain = 0, g_nontrivialSeq = 0;
 static std::map<std::string, uint64_t> g_classes;
 static std::set<uint64_t> g_distinct;
+static uint64_t g_distinctSteps = 0;
 static std::vector<std::string> g_samples;
 static const char *g_failFile = nullptr;
 static std::string g_simin[8];
@@ -167,6 +168,7 @@ static void classifyStep(const refisa::StepInfo &si, uint32_t aregBefore, bool p
 static std::string runGridState(const State &s, int onlyByte, bool cmpEach, int *failByte) {
   Rtl &r = *g_rtl;
   r.beginCase(s.input);
+  bool newState = g_distinct.insert(hashMix(hashMix(hashMix(hashMix(hashMix(s.pc, s.areg), s.breg), s.oreg), s.target), s.targetVal ^ ((uint64_t)s.sp << 20))).second;
   for (int inst = 0; inst < 256; inst++) {
     if (onlyByte >= 0 && inst != onlyByte) continue;
     auto pl = isagen::plant(s, (uint8_t)inst, true);
@@ -178,7 +180,7 @@ static std::string runGridState(const State &s, int onlyByte, bool cmpEach, int 
     if (defined) {
       g_defined++;
       classifyStep(si, pl.areg, pl.oreg != 0);
-      g_distinct.insert(hashMix(hashMix(hashMix(hashMix(hashMix(inst, pl.pc), pl.areg), pl.breg), pl.oreg), s.targetVal));
+      if (newState) g_distinctSteps++;
     }
     if (cmpEach) { d = r.compareMemory(); if (!d.empty()) { *failByte = inst; return d; } }
   }
@@ -225,7 +227,7 @@ static void writeStats(bool ok) {
   if (!f) return;
   vjson::Obj o;
   o.num("cases", g_cases); o.num("steps", g_steps); o.num("defined_grid_steps", g_defined); o.num("undefined", g_undefined);
-  o.num("out_of_domain", g_outOfDomain); o.num("nontrivial_sequences", g_nontrivialSeq); o.num("distinct", g_distinct.size());
+  o.num("out_of_domain", g_outOfDomain); o.num("nontrivial_sequences", g_nontrivialSeq); o.num("distinct", g_distinctSteps);
   vjson::Obj c; for (auto &kv : g_classes) c.num(kv.first, kv.second); o.raw("classes", c.done());
   vjson::Arr s; for (auto &x : g_samples) s.raw(x); o.raw("samples", s.done());
   o.boolean("ok", ok);
@@ -270,7 +272,7 @@ int main(int argc, char **argv) {
       if (g_samples.size() < 4 && g_cases % 50 == 7) g_samples.push_back(isagen::toJson(q));
       uint64_t steps = 0;
       std::string d = runImage(file, q.input, 400, &steps);
-      if (steps >= 8) { g_nontrivialSeq++; uint64_t h = 0; for (auto c : bytes) h = hashMix(h, c); g_distinct.insert(h); }
+      if (steps >= 8) { g_nontrivialSeq++; uint64_t h = 0; for (auto c : bytes) h = hashMix(h, c); if (g_distinct.insert(h).second) g_distinctSteps++; }
       if (!d.empty()) { vjson::Obj o; o.str("kind", "image"); o.hex("file", file); o.hex("input", q.input); o.str("diff", d); o.num("max_steps", 400); recordFail(o.done()); }
       RC_ASSERT(d.empty());
     });
@@ -281,7 +283,7 @@ int main(int argc, char **argv) {
     uint64_t steps = 0;
     g_cases++;
     std::string d = runImage(file, input, maxSteps, &steps);
-    if (steps >= 8) { g_nontrivialSeq++; uint64_t h = 0; for (auto c : file) h = hashMix(h, (unsigned char)c); g_distinct.insert(h); }
+    if (steps >= 8) { g_nontrivialSeq++; uint64_t h = 0; for (auto c : file) h = hashMix(h, (unsigned char)c); if (g_distinct.insert(h).second) g_distinctSteps++; }
     if (!d.empty()) { vjson::Obj o; o.str("kind", "image"); o.hex("file", file.size() < 20000 ? file : std::string()); o.str("path", argv[2]); o.hex("input", input); o.str("diff", d); recordFail(o.done()); ok = false; }
   } else if (mode == "state" && argc >= 17) {
     State s; uint32_t v[13];
